@@ -315,6 +315,14 @@ class IntervalTier(textgrid_tier.TextgridTier):
         matchList = self.crop(start, end, CropCollision.LAX, False).entries
         newTier = self.new()
 
+        # Did one interval span the whole region (and get split in two)?
+        isSplit = (
+            collisionMode == constants.EraseCollision.TRUNCATE
+            and len(matchList) == 1
+            and matchList[0].start < start
+            and matchList[0].end > end
+        )
+
         if len(matchList) == 0:
             pass
         else:
@@ -363,7 +371,7 @@ class IntervalTier(textgrid_tier.TextgridTier):
                 rightEdge = newEntryList[i].end == start
                 leftEdge = newEntryList[i + 1].start == start
                 sameLabel = newEntryList[i].label == newEntryList[i + 1].label
-                if rightEdge and leftEdge and sameLabel:
+                if isSplit and rightEdge and leftEdge and sameLabel:
                     newInterval = Interval(
                         newEntryList[i].start,
                         newEntryList[i + 1].end,
